@@ -83,7 +83,7 @@ structure Inv (us : List Unit') (f : Files) (s : St) : Prop where
   se_qs : s.shouldExit = true → s.quitSeen = true
   got_qs : ∀ t b, s.kbd = .gotLine t b → t = "q" → s.quitSeen = true
   plain_ne : ∀ i rest, s.main = .plain i rest → rest ≠ [] ∧ s.omenExit = false
-  omen_ne : ∀ i rest r, s.main = .omen i rest r → rest ≠ [] ∧ s.omenExit = false
+  omen_ne : ∀ i rest r, s.main = .omen i rest r → s.omenExit = false
   opt : s.omenExit = false → s.files.omenOpt = true →
       (∃ i rest, s.main = .omen i rest true) ∨ (s.files.omn = none ∧ f.omenOpt = true ∧ f.omn = none)
   exited : s.main = .exited → s.quitSeen = true ∧ s.files.savPos.isSome = true
@@ -93,7 +93,7 @@ theorem Inv.init (us : List Unit') (f : Files) (stdin : List Ev) : Inv us f (ini
   cases opt <;> cases omn with
   | none => constructor <;> simp [initLoad, pending, remainingL, omenRest]
   | some rest =>
-    cases rest <;> constructor <;> simp [initLoad, pending, remainingL, omenRest, removesOmenOption_eq]
+    constructor <;> simp [initLoad, pending, remainingL, omenRest]
 
 /-! the keyboard actor only touches `kbd`, `stdin`, `shouldExit`, `quitSeen` -/
 
@@ -209,7 +209,7 @@ theorem NQ.init (f : Files) (stdin : List Ev) (hq : ∀ t b, Ev.line t b ∈ std
   obtain ⟨pos, opt, omn⟩ := f
   cases opt <;> cases omn with
   | none => constructor <;> simp_all [initLoad]
-  | some rest => cases rest <;> constructor <;> simp_all [initLoad]
+  | some rest => constructor <;> simp_all [initLoad]
 
 theorem kbdStep_stdin_sub (s : St) (e : Ev) (h : e ∈ (kbdStep s).stdin) : e ∈ s.stdin := by
   unfold kbdStep at h
@@ -267,10 +267,10 @@ theorem NQ.run {us : List Unit'} {s : St} (h : NQ s) (σ : List Actor) : NQ (run
 /-! ## Termination of the main actor -/
 
 
-/-- main steps needed from the loop head before unit `i`: one per line, one per unit, one to find the
-queue empty -/
+/-- main steps needed from the loop head before unit `i`: one per line, two per unit (the pop, and for a
+Markov level the last call of the generator that finds nothing), one to find the queue empty -/
 def headCost (us : List Unit') (i : Nat) : Nat :=
-  (fullStream (us.drop i)).length + (us.length - i) + 1
+  (fullStream (us.drop i)).length + 2 * (us.length - i) + 1
 
 /-- upper bound on the number of main steps until the main actor has terminated -/
 def cost (us : List Unit') (s : St) : Nat :=
@@ -279,10 +279,10 @@ def cost (us : List Unit') (s : St) : Nat :=
   | .exited => 0
   | .loopHead i => headCost us i
   | .plain i rest => rest.length + headCost us i
-  | .omen i rest _ => rest.length + headCost us i
+  | .omen i rest _ => rest.length + 1 + headCost us i
 
 theorem headCost_some (us : List Unit') (i : Nat) (u : Unit') (h : us[i]? = some u) :
-    headCost us i = u.lines.length + headCost us (i + 1) + 1 := by
+    headCost us i = u.lines.length + headCost us (i + 1) + 2 := by
   have := fullStream_drop_length us i u h
   simp only [headCost, fullStream_drop_some us i u h, List.length_append]
   omega
@@ -343,15 +343,15 @@ theorem cost_run {us : List Unit'} {f : Files} (σ : List Actor) :
       omega
 
 theorem cost_init (us : List Unit') (f : Files) (stdin : List Ev) :
-    cost us (initLoad f stdin) ≤ (remainingL us f).length + us.length + 1 := by
+    cost us (initLoad f stdin) ≤ (remainingL us f).length + 2 * us.length + 2 := by
   obtain ⟨pos, opt, omn⟩ := f
   cases opt <;> cases omn with
-  | none => simp [initLoad, cost, remainingL, headCost]
+  | none => simp [initLoad, cost, remainingL, headCost] <;> omega
   | some rest =>
-    cases rest <;> simp [initLoad, cost, remainingL, headCost] <;> omega
+    simp [initLoad, cost, remainingL, headCost] <;> omega
 
 theorem terminates_of_steps (us : List Unit') (f : Files) (stdin : List Ev) (σ : List Actor)
-    (hn : (remainingL us f).length + us.length + 1 ≤ σ.count .main) :
+    (hn : (remainingL us f).length + 2 * us.length + 2 ≤ σ.count .main) :
     (run us (initLoad f stdin) σ).main = .finished ∨ (run us (initLoad f stdin) σ).main = .exited := by
   apply cost_zero us
   have h1 := cost_run σ (Inv.init us f stdin)
